@@ -1,4 +1,5 @@
 import Cuke.Lemmas.SchedSeq
+import Cuke.Lemmas.SchedCount
 import Cuke.Lemmas.Sched
 import Cuke.Lemmas.SchedRetry
 import Cuke.Model.SchedLts
@@ -293,5 +294,84 @@ example : ((acceptN rcfg (rlog.take 14 ++ [.get1 3 (some 1) 0 1, .get2 3 (.cont 
   decide +kernel
 /-- … as is an `END` that says `retried` although no successor was inserted -/
 example : ((acceptN rcfg (rlog.take 13 ++ [.endA 10 true true 2])).ndis.map (·.cls)) = [.R] := by decide +kernel
+
+/-! ## a budget of N yields at most N + 1 attempts — over whole runs -/
+
+open Cuke.SchedSeq Cuke.SchedCount in
+/-- **Every attempt of a scenario is dispatched with its own retry counter.** In every log clean in both layers the
+    (scenario, `current`) pairs of the attempts dispatched so far are pairwise distinct: the waiting entry of a scenario
+    always carries a higher `current` than every attempt of it dispatched before. -/
+theorem lts_dispatches_distinct (c : SCfg) (hwf : WF c) (ls : List Label) (hc : NClean (acceptN c ls) = true) :
+    (dispatched c ls).Nodup :=
+  (dispatched_inv c hwf ls hc).nd
+
+open Cuke.SchedSeq Cuke.SchedCount Cuke.SchedRetry in
+/-- … and every dispatched counter is within the budget the scenario resolved to when its feature was delivered … -/
+theorem lts_dispatched_within_budget (c : SCfg) (ls : List Label) (hc : NClean (acceptN c ls) = true)
+    (x k N : Nat) (hk : (x, k) ∈ dispatched c ls)
+    (hbud : ∀ ft ∈ c.feats, ∀ e0 ∈ newEntries c ft, e0.key.scen = x → ∀ o0, e0.ret = some o0 → o0.retries.left ≤ N) :
+    k ≤ N := by
+  rcases dispatched_from_batch c ls _ (x, k) hk with h | ⟨pre, suf, hsplit, e, he, hsc⟩
+  · cases h
+  · subst hsplit
+    have hcp : NClean (acceptN c pre) = true := by
+      have : acceptN c (pre ++ suf) = suf.foldl (stepN c) (acceptN c pre) := by simp [acceptN, foldl_append]
+      rw [this] at hc
+      exact nclean_foldl_mono c suf _ hc
+    have hg : GoodRQ (accept c pre) = true := by
+      simp only [NClean, Bool.and_eq_true] at hcp
+      have := hcp.1
+      rw [acceptN_base] at this
+      exact (SchedCons.clean_good _ (SchedOrd.clean0_all _ this).2.2).2
+    have hbase : (pre.foldl (stepN c) {}).base = accept c pre := acceptN_base c pre
+    rw [hbase] at he
+    have hents : e ∈ ents (accept c pre) := by simp only [ents, mem_append]; exact Or.inl (Or.inr he)
+    have hx : e.key.scen = x := by simpa [sc] using congrArg Prod.fst hsc
+    have hkc : cur e.ret = k := by simpa [sc] using congrArg Prod.snd hsc
+    cases hr : e.ret with
+    | none => rw [hr] at hkc; simp [cur] at hkc; omega
+    | some o =>
+      obtain ⟨e0, o0, ⟨ft, hft, hmem⟩, hkey, h0, _, _, hle, _⟩ := lts_attempt_within_budget c pre hg e hents o hr
+      have := hbud ft hft e0 hmem (by rw [hkey]; exact hx) o0 h0
+      rw [hr] at hkc
+      simp only [cur, Option.map_some, Option.getD_some] at hkc
+      omega
+
+open Cuke.SchedSeq Cuke.SchedCount in
+/-- … hence **a scenario with a budget of `N` is dispatched at most `N + 1` times**, in every clean run of any length. -/
+theorem lts_at_most_budget_plus_one_attempts (c : SCfg) (hwf : WF c) (ls : List Label) (hc : NClean (acceptN c ls) = true)
+    (x N : Nat)
+    (hbud : ∀ ft ∈ c.feats, ∀ e0 ∈ newEntries c ft, e0.key.scen = x → ∀ o0, e0.ret = some o0 → o0.retries.left ≤ N) :
+    ((dispatched c ls).filter (fun p => p.1 == x)).length ≤ N + 1 := by
+  have hnd := lts_dispatches_distinct c hwf ls hc
+  have hlen : ((dispatched c ls).filter (fun p => p.1 == x)).length =
+      (((dispatched c ls).filter (fun p => p.1 == x)).map Prod.snd).length := by simp
+  rw [hlen]
+  apply nodup_bounded_length
+  · -- the second components of the pairs with first component `x` are distinct
+    -- injectivity of `snd` on pairs with the same first component
+    have key : ∀ (m : List (Nat × Nat)), m.Nodup → (∀ p ∈ m, p.1 = x) → (m.map Prod.snd).Nodup := by
+      intro m
+      induction m with
+      | nil => intro _ _; exact nodup_nil
+      | cons a m ih =>
+        intro hm hx
+        simp only [map_cons, nodup_cons] at hm ⊢
+        refine ⟨?_, ih hm.2 (fun p hp => hx p (mem_cons_of_mem _ hp))⟩
+        intro hmem
+        simp only [mem_map] at hmem
+        obtain ⟨b, hb, hsnd⟩ := hmem
+        have : b = a := Prod.ext ((hx b (mem_cons_of_mem _ hb)).trans (hx a mem_cons_self).symm) hsnd
+        exact hm.1 (this ▸ hb)
+    exact key _ (hnd.filter _) (fun p hp => by simpa using (mem_filter.mp hp).2)
+  · intro k hk
+    simp only [mem_map, mem_filter] at hk
+    obtain ⟨p, ⟨hp, hpx⟩, rfl⟩ := hk
+    have hpx' : p.1 = x := by simpa using hpx
+    have := lts_dispatched_within_budget c ls hc x p.2 N (by rw [← hpx']; exact hp) hbud
+    omega
+
+/-- non-vacuity: in the example run scenario 1 (budget 2) is dispatched twice, with `current` 0 and 1 -/
+example : Cuke.SchedCount.dispatched rcfg rlog = [(1, 0), (1, 1)] := by decide +kernel
 
 end Cuke.C05
